@@ -264,6 +264,9 @@ def run_property(pid: str, tier: str, seed: int) -> int:
     import multiprocessing as mp
 
     t0 = time.time()
+    from . import scratch
+
+    scratch.root()  # created before forking; removed by atexit of this process
     mod = load_prop(pid)
     lanes: list[Lane] = [ln for ln in mod.LANES if ln.budget.get(tier, 0) > 0 or ln.enumerate]
     lanes = [ln for ln in lanes if ln.budget.get(tier, 1) != 0]
